@@ -173,6 +173,9 @@ def run_history(rng, length):
     vs, probs = build_world(rng)
     names = [v.name for v in vs]
     ids = all_ids(vs)
+    # sub-Variable objects the user keeps across solves (slices, rows, single components): each is a view of its parent's values
+    views = [(vs[0][:2], vs[0], np.s_[:2]), (vs[0][::2], vs[0], np.s_[::2]), (vs[1][0], vs[1], np.s_[0]), (vs[1][:, 1], vs[1], np.s_[:, 1]),
+             (vs[3][1:], vs[3], np.s_[1:]), (vs[2][0], vs[2], np.s_[0])]
     saved = Problem._SOLVERS_['ECOS']
     Problem._SOLVERS_['ECOS'] = Stub
     ops_desc, ops_json, outs = [], [], []
@@ -193,6 +196,13 @@ def run_history(rng, length):
                 warnings.simplefilter('ignore')
                 st, val = prob.solve(solver='ECOS', verbose=False)
             why = oracle_step(prob, st, val, flag, x, pcost)
+            if why is None:
+                for vw, par, ix in views:
+                    for _rep in range(2):
+                        got, want = np.asarray(vw.value, dtype=float), np.asarray(par.value, dtype=float)[ix]
+                        if got.shape != want.shape or not np.array_equal(got, want, equal_nan=True):
+                            why = ('flag %d: a sub-Variable object of %s kept from before the solve holds %r while the Variable holds %r at the same positions'
+                                   % (flag, par.name, got.tolist(), want.tolist()))
             if why and failure is None:
                 failure = why
             kinds.append('load' if flag in (0, 10) else 'nan')
@@ -307,6 +317,24 @@ def real_ecos_stream(ctx):
             ctx.count('real_ecos', name)
             if not (got[0] == 'solved' and abs(got[1] - want) <= 1e-5 * (1 + abs(want))):
                 fails.append('%s: reported (%s, %r), expected (solved, %r)' % (name, got[0], got[1], want))
+        # an objective in which a ScalarVariable cancels (telescoping sums) and that ScalarVariable occurs in no constraint: the model may be refused
+        # at construction, but a reported optimum must be the optimum of the objective as written (here 4, attained at w0 = 1, w2 = 5)
+        for order in (0, 1, 2):
+            w = cl.Variable(shape=(3,), name='w_tel%d' % order)
+            obj = [(w[2] - w[1]) + (w[1] - w[0]), (w[1] - w[0]) + (w[2] - w[1]), -w[0] + w[1] + w[2] - w[1]][order]
+            ctx.count('real_ecos', 'cancelled_objective_term')
+            try:
+                pr = cl.Problem(cl.MAX, obj, [w[0] >= 1, w[2] <= 5, w[0] <= w[2]])
+            except ValueError:
+                continue
+            except Exception as e:
+                fails.append('cancelled objective term: constructing the Problem raised %r' % (e,))
+                continue
+            st, val = pr.solve(solver='ECOS', verbose=False)
+            wv = np.asarray(w.value, dtype=float)
+            if not (st == 'solved' and abs(val - 4.0) <= 1e-5 and abs((wv[2] - wv[0]) - val) <= 1e-5):
+                fails.append('cancelled objective term (max (w2 - w1) + (w1 - w0), 1 <= w0 <= w2 <= 5, written in order %d): reported (%s, %r) with w = %r; '
+                             'the optimum is 4 and the reported value must be the objective at the returned point' % (order, st, val, wv.tolist()))
         # forced failure: max_iters=1
         x = cl.Variable(shape=(2,), name='x')
         prob = cl.Problem(cl.MIN, x[0], [cl.vector2norm(x) <= 1, cl.weighted_sum_exp(np.array([1.0]), x[1:]) <= 3])
